@@ -155,6 +155,11 @@ def gen_big(rng):
         out.append({"mode": "array", "seed": rng.randrange(10 ** 9), "dtype": dt, "shape": shape,
                     "layout": rng.choice(["C", "F"]) if len(shape) > 1 else "C", "target": rng.choice(["path", "bytesio"]),
                     "form": form, "proto": None, "filler": rng.choice([0, 7]), "nested": False, "ensure_native": "auto"})
+    # item sizes around BUFFER_SIZE = 262144 (just below, equal, just above, several times), few elements
+    for dt in ("V262143", "V262144", "V262145", "S300000", "<U70000", "V786432", [["blob", "V262140"], ["n", "<i8"]]):
+        out.append({"mode": "array", "seed": rng.randrange(10 ** 9), "dtype": dt, "shape": [rng.choice([1, 2, 3])],
+                    "layout": "C", "target": rng.choice(["path", "bytesio"]), "form": rng.choice([0, ["zlib", 1], "gzip"]),
+                    "proto": None, "filler": rng.choice([0, 7]), "nested": False, "ensure_native": "auto"})
     # 4-8 MiB of zeros x zlib / gzip at levels 4, 7, 9: the compressed file is a few KiB, a single raw block of it
     # inflates to MiBs
     for dt, shape in [("<f8", [786432]), ("u1", [2048, 2048]), (">i4", [1500000]), ("<f4", [1024, 1024, 2])]:
@@ -498,6 +503,45 @@ def judge_loky_mode(c, r):
     return None
 
 
+def gen_loky_seqs(rng, quick):
+    """sequences of calls in ONE process with different (mmap_mode, max_nbytes): 'r+' then 'c' then 'r', a threshold
+    above then below the array size"""
+    seqs = [[("r+", 100), ("c", 100), ("r", 100), ("w+", 100)],
+            [("r", 10 ** 6), ("r", 100), ("c", 10 ** 6), ("c", 0)]]
+    if not quick:
+        seqs += [[("c", 100), ("r+", 100), ("default", 100), (None, 100), ("r", 100)],
+                 [("default", 10 ** 6), ("r+", 0), ("r", 10 ** 6), ("c", 100)]]
+    return [{"mode": "loky_seq", "dtype": rng.choice(["<f8", "<i4"]), "shape": rng.choice([[500], [30, 20]]),
+             "steps": [{"mmap_mode": mm, "max_nbytes": thr, "tasks": 4} for mm, thr in sq]} for sq in seqs]
+
+
+def judge_loky_seq(c, r):
+    if "harness_error" in r:
+        return "the case could not be run to its end: " + r["harness_error"] + r.get("tb", "")[-200:]
+    for i, (st, res) in enumerate(zip(c["steps"], r["steps"])):
+        mm = "r" if st["mmap_mode"] == "default" else st["mmap_mode"]
+        what = "call %d of the sequence %s, Parallel(mmap_mode=%r, max_nbytes=%s)" % (
+            i + 1, [(s["mmap_mode"], s["max_nbytes"]) for s in c["steps"]], st["mmap_mode"], st["max_nbytes"])
+        if not res["caller_array_intact"]:
+            return what + ": the caller's array was modified by a task"
+        want_mm = mm is not None and res["nbytes"] > st["max_nbytes"]
+        want_mode = {"w+": "r+"}.get(mm, mm)
+        for g in res["got"]:
+            if g["memmap"] != want_mm:
+                return what + ": array of %d bytes, the task received a memmap: %s" % (res["nbytes"], g["memmap"])
+            if want_mm and g["mode"] != want_mode:
+                return what + ": the task received a memmap of mode %r" % g["mode"]
+            if want_mm and g["writeable"] != (want_mode != "r"):
+                return what + ": the task's view is writeable: %s" % g["writeable"]
+            if not (want_mm and want_mode == "r+") and (g["digest"] != res["want_digest"] or g["first"] != res["want_first"]):
+                return what + ": a task saw other values than the array passed (first element %s, expected %s)" % (
+                    g["first"], res["want_first"])
+    if "parallel_raise" in r:
+        return "call %d of the sequence %s raised %s" % (len(r["steps"]) + 1, [(s["mmap_mode"], s["max_nbytes"]) for s in c["steps"]],
+                                                       r["parallel_raise"])
+    return None
+
+
 def judge_loky_loop(c, r):
     if "harness_error" in r:
         return "the case could not be run: " + r["harness_error"] + r.get("tb", "")[-300:]
@@ -806,6 +850,7 @@ def run(ctx):
     lok = gen_loky(rng, quick)
     loops = gen_loky_loops(rng, quick)
     modes = gen_loky_modes(rng, quick)
+    seqs = gen_loky_seqs(rng, quick)
     routes = gen_routes(rng, 60 if quick else 600)
     mat = [{"mode": "loadmatrix", "payload": pk, "form": f} for pk in ("array", "object")
            for f in (0, 3, "gzip", "bz2", "lzma", "xz")]
@@ -814,8 +859,10 @@ def run(ctx):
     route_res = run_parallel(routes)
     mat_res = run_parallel(mat, workers=6)
     with cf.ThreadPoolExecutor(4) as ex:
-        both = list(ex.map(lambda c: run_impl_cases([c], timeout=400)[0], lok + loops + modes))
-    lok_res, loop_res, mode_res = both[:len(lok)], both[len(lok):len(lok) + len(loops)], both[len(lok) + len(loops):]
+        both = list(ex.map(lambda c: run_impl_cases([c], timeout=400)[0], lok + loops + modes + seqs))
+    lok_res, loop_res = both[:len(lok)], both[len(lok):len(lok) + len(loops)]
+    mode_res = both[len(lok) + len(loops):len(lok) + len(loops) + len(modes)]
+    seq_res = both[len(lok) + len(loops) + len(modes):]
     oracle_fail, known_hits = [], {}
     dist = {"dtype_kinds": {}, "layouts": {}, "forms": {}, "targets": {}, "mmap_modes": {}, "ranks": {}}
     nontrivial = set()
@@ -855,6 +902,16 @@ def run(ctx):
             else:
                 ctx.note("inconclusive real-backend run (failed once, passed when repeated): " + bad[:200])
     inconclusive = []
+    for c, r in zip(seqs, seq_res):
+        bad = judge_loky_seq(c, r)
+        if bad:
+            r2 = run_impl_cases([c], timeout=400)[0]
+            bad2 = judge_loky_seq(c, r2)
+            if bad2:
+                oracle_fail.append((bad2, c, {"first_attempt": bad}, None))
+            else:
+                inconclusive.append({"case": c, "first_attempt": bad})
+                ctx.note("inconclusive real-backend run (failed once, passed when repeated): " + bad[:200])
     for c, r in zip(modes, mode_res):
         bad = judge_loky_mode(c, r)
         if bad:
@@ -940,10 +997,11 @@ def run(ctx):
                            "correspondence": "Gen/C19_Padding.v + Model/ArrayLayout.v vs NumpyArrayWrapper / _reduce_memmap_backed"},
                           found_input=False)
     ctx.finish({
-        "evaluations": len(arr) + len(red) + len(lok) + len(kc) + len(routes) + 75 * len(mat) + sum(c["iterations"] for c in loops) + len(modes),
+        "evaluations": len(arr) + len(red) + len(lok) + len(kc) + len(routes) + 75 * len(mat) + sum(c["iterations"] for c in loops) + len(modes) + sum(len(c["steps"]) for c in seqs),
         "load_dispatch_combinations": 75 * len(mat),
         "reducer_routes": route_dist,
         "inconclusive_real_backend_runs": inconclusive,
+        "call_sequences": [[(st["mmap_mode"], st["max_nbytes"]) for st in c["steps"]] for c in seqs],
         "mmap_mode_runs": [[c["backend"], c["mode_given"], c["mmap_mode"], c["managed"]] for c in modes],
         "managed_parallel_loops": {"cases": len(loops), "calls": sum(c["iterations"] for c in loops),
                                    "fresh_arrays_allocated_at_a_dead_arrays_address": addr_reuse},
@@ -993,6 +1051,10 @@ def replay(ctx, path):
     elif c["mode"] == "route":
         b = judge_route(c, r)
         bad = (b, None) if b else None
+    elif c["mode"] == "loky_seq":
+        b = judge_loky_seq(c, r)
+        bad = (b, None) if b else None
+        r = {"steps": len(r.get("steps", []))}
     elif c["mode"] == "loky_mode":
         b = judge_loky_mode(c, r)
         bad = (b, None) if b else None
